@@ -145,6 +145,22 @@ def generate(tier):
         src += ('pub fn check(r: &mut Rep) {\n    let x = Ty::default();\n    let got = unsafe { x.f%d };\n    r.ck(got == inh(0), 0, &|| format!("default().f%d = {:?}, the Default impl of the field type gives Inh(0)", got));\n'
                 '    let y = Ty::new();\n    let got = unsafe { y.f%d };\n    r.ck(got == inh(0), 1, &|| format!("new().f%d = {:?}", got));\n}\n') % (p, p, p, p)
         cases.append(Case('C20|default|inherent|%d|%d' % (nf, p), src, {'fields': nf, 'designated': p, 'field_type': 'Inh'}, expect='accept', run=True, depth=1))
+    # literal default expressions on the designated field at every position: whether the literal is converted is decided by the *designated* field's type,
+    # whatever the types of the fields around it (integer / float primitives, user types with From<literal type>)
+    lits = (('7', 'DI', 'DI(1007)'), ('7', 'i64', '7i64'), ('7', 'u8', '7u8'), ('1.5', 'DF', 'DF(1001.5)'), ('1.5', 'f32', '1.5f32'), ('7u8', 'u32', '7u32'), ("'c'", 'u32', "'c' as u32"), ('true', 'DB', 'DB(11)'),
+            ('-40', 'DI', 'DI(960)'), ('-2.5f32', 'f64', '-2.5f64'))
+    spell = ('Default = {e}', 'Default(expression = {e})', 'Default(expr = {e})', 'Default(expression({e}))')
+    for li, (lit, fty, want) in enumerate(lits):
+        for others in (('u8', 'i32'), ('f64', 'f32'), ('DI', 'DF'), ('u64', 'DB')):
+            for p in range(3):
+                tys = list(others)
+                tys.insert(p, fty)
+                sp = spell[(li + p) % 4].format(e=lit)
+                fields = ''.join('%s    pub f%d: %s,\n' % ('    #[educe(%s)]\n' % sp if i == p else '', i, t) for i, t in enumerate(tys))
+                src = '#[derive(Educe)]\n#[educe(Default(new))]\npub union Ty {\n%s}\n' % fields
+                src += ('pub fn check(r: &mut Rep) {\n    let want: %s = %s;\n    let x = Ty::default();\n    let got = unsafe { x.f%d };\n    r.ck(got == want, 0, &|| format!("default().f%d = {:?}, expected {:?}", got, want));\n'
+                        '    let y = Ty::new();\n    let got = unsafe { y.f%d };\n    r.ck(got == want, 1, &|| format!("new().f%d = {:?}, expected {:?}", got, want));\n}\n') % (fty, want, p, p, p, p)
+                cases.append(Case('C20|default-literal|%s:%s|%s|%d' % (lit, fty, '+'.join(others), p), src, {'literal': lit, 'field_type': fty, 'other_fields': list(others), 'designated': p, 'spelling': sp}, expect='accept', run=True, depth=2))
     return cases
 
 
